@@ -114,7 +114,12 @@ func zzH06_builtins() {
 			}
 		}
 	}
-	frozen, c0 := zzBool("frozen"), zzU32("c0")
+	// quick tier: K unfrozen (the lock matters only then); thorough: frozen flag symbolic too
+	// (a frozen K must not have its counter touched at all)
+	frozen, c0 := false, zzU32("c0")
+	if zzParam("symbolic_frozen", 0, 1) == 1 {
+		frozen = zzBool("frozen")
+	}
 	zzAssume(c0 < 1<<31)
 	var flag *bool
 	switch kind {
